@@ -5,6 +5,7 @@ import (
 	_ "verifmc/checks/c01"
 	_ "verifmc/checks/c02"
 	_ "verifmc/checks/c03"
+	_ "verifmc/checks/c04"
 	_ "verifmc/checks/c06"
 	_ "verifmc/checks/c07"
 	_ "verifmc/checks/c08"
